@@ -16,10 +16,18 @@ ANGLES = {
     8: "Prefer a change that leaves the PRIMARY way of observing the property intact and breaks a SECONDARY observation point that the property (see its anchors / observe_at text) also covers: another accessor or field for the same fact (Entry.Path, Entry.Key, ListAttr, DefaultValues vs Default, Type.Default vs HasDefault, NameMap vs ValueMap vs Values/Names, Identities on the module entry vs Identity.Values vs the identityref type, Import.Module, Entry.Uses under StoreUses, Entry.Augments/Augmented, GetErrors vs the return value of Process, FindModuleByNamespace vs Namespace, the returned byte count vs the bytes written, the goyang command's output vs the library result), a second code path to the same result (Read vs Parse, GetModule vs Process+ToEntry, String vs Bytes vs the writer), or the same query asked a second time.",
 }
 
+RARE = {}
+try:
+    RARE = json.load(open("/tmp/rare_funcs.json"))
+except Exception:
+    pass
+
 KNOWN = "Do NOT deliver any of these, they have been delivered before: Entry.dup copying the child map only when it is non-empty (sharing the Dir of empty nodes); ApplyDeviate looking a deviation path up once per path text; the type dictionary's run counter advancing only when typedefs were added; Namespace() letting the outermost augment win; ReadOnly() stopping at an rpc/action input or notification; an own-prefix shortcut in Entry.Find decided by the tree root's prefix; updateCursor testing the index of the last line break with > 0; a dated file of a longer-named module taken for a candidate; the reset of the byNS namespace memo moved below an early return; an empty Write at a line start setting the line state; sync.Pool for the AST builder's seen-map or for the lexer; a memo of includingModule or of Modules.revisions; a memo of checked posix-pattern expressions; flattening an indenting writer that wraps another indenting writer; Find falling back to the cases of a choice when a step names no child; inPattern cleared when a double-quoted string closes; ClearEntryCache keeping grouping expansions; the second choice fix-up pass run only for modules with waiting augments; deviate replace/add type writing through the shared YangType pointer; the AST builder accepting a second occurrence of a single-valued substatement; a typedef over a built-in name (union, identityref) keeping its type from an earlier Process; the containment test of a range done before its parts are sorted; an imported unknown type reported at the module statement; mergedSubmodule not reset by Process; a cache of directory listings in findInDir."
 
 def main():
     prop, wt, out, angle = sys.argv[1], sys.argv[2], sys.argv[3], int(sys.argv[4])
+    if angle == 9:
+        ANGLES[9] = "Earlier wrong changes for this property clustered in a few functions. Put YOURS into one of the functions that none of them touched, or make it show through one of them (file:function): " + ", ".join(RARE.get(prop, [])) + ". Read the function, work out which clause of the property it carries, and change it so that ordinary inputs behave exactly as before while a particular shape, sequence or value goes wrong. If none of the listed functions can carry a change that breaks the property while the suite stays green, say so in notes.md and take the function closest to them."
     p = None
     for l in open("/verif/properties.jsonl"):
         j = json.loads(l)
